@@ -337,19 +337,19 @@ theorem inv_remove {ic : Bool} (t : Item ι V) (id : ι) (h : t.inv ic = true) :
 
 /-! ### retain -/
 
-theorem retain_empty (ic : Bool) (f : ι → V → Bool) : (Item.empty ic : Item ι V).retain f = .empty ic := by
+theorem retain_empty (ic : Bool) (f : ι → V → Option V) : (Item.empty ic : Item ι V).retain f = .empty ic := by
   rw [Item.retain]
-theorem retain_leaf (rx) (vs : List (ι × V)) (f : ι → V → Bool) :
+theorem retain_leaf (rx) (vs : List (ι × V)) (f : ι → V → Option V) :
     (Item.leaf rx vs).retain f =
-      if (vs.filter fun kv => f kv.1 kv.2).isEmpty then .empty rx.ic
-      else .leaf rx (vs.filter fun kv => f kv.1 kv.2) := by
+      if (retainVals f vs).isEmpty then .empty rx.ic
+      else .leaf rx (retainVals f vs) := by
   rw [Item.retain]
-theorem retain_node (rx) (cs : List (Item ι V)) (f : ι → V → Bool) :
+theorem retain_node (rx) (cs : List (Item ι V)) (f : ι → V → Option V) :
     (Item.node rx cs).retain f =
       if (retainL cs f).isEmpty then .empty rx.ic else collapse1 rx (retainL cs f) := by
   rw [Item.retain]
 
-theorem inv_retain_aux {ic : Bool} (t : Item ι V) (f : ι → V → Bool) (h : t.inv ic = true) :
+theorem inv_retain_aux {ic : Bool} (t : Item ι V) (f : ι → V → Option V) (h : t.inv ic = true) :
     (t.retain f).inv ic = true ∧ ((t.retain f).isEmptyCtor = false → Ext t (t.retain f)) := by
   induction t using Item.ind with
   | hE ic' => rw [retain_empty]; exact ⟨h, fun hh => by simp [Item.isEmptyCtor] at hh⟩
@@ -362,7 +362,14 @@ theorem inv_retain_aux {ic : Bool} (t : Item ι V) (f : ι → V → Bool) (h : 
       refine ⟨inv_leaf_iff.2 ⟨h1, h2, ?_, ?_⟩, fun _ => ⟨by simp [Item.isNode], Or.inl rfl⟩⟩
       · intro e; rw [e] at hne; simp at hne
       · rw [nodupKeys_iff] at *
-        exact h4.sublist List.filter_sublist
+        unfold retainVals
+        rw [List.pairwise_filterMap]
+        refine h4.imp ?_
+        intro a b hab a' ha' b' hb'
+        simp only [Option.mem_def, Option.map_eq_some_iff] at ha' hb'
+        obtain ⟨_, _, rfl⟩ := ha'
+        obtain ⟨_, _, rfl⟩ := hb'
+        exact hab
   | hN rx cs ih =>
     obtain ⟨_, h2, _, h4, h5, _, h7⟩ := inv_node_iff.1 h
     rw [retain_node]
@@ -395,7 +402,7 @@ theorem inv_retain_aux {ic : Bool} (t : Item ι V) (f : ι → V → Bool) (h : 
       exact ⟨this.1, fun _ => this.2⟩
 
 /-- `retain` preserves the invariant. -/
-theorem inv_retain {ic : Bool} (t : Item ι V) (f : ι → V → Bool) (h : t.inv ic = true) :
+theorem inv_retain {ic : Bool} (t : Item ι V) (f : ι → V → Option V) (h : t.inv ic = true) :
     (t.retain f).inv ic = true := (inv_retain_aux t f h).1
 
 end Rio.Tree
